@@ -794,6 +794,17 @@ func (w *World) opWipeKeyBuffer(step int) {
 	sg.supplied = nil
 	w.r.Fault("caller_overwrites_key_buffer")
 	w.r.Hist("%d caller overwrites the buffer it passed to NewPrivateKey for key %d", step, ki)
+	// ... and whatever the accessors of the key hand out
+	kb := sg.priv.Bytes()
+	for i := range kb {
+		kb[i] ^= 0xa5
+	}
+	sg.priv.Scalar().Zero()
+	pb := sg.priv.PublicKey().Bytes()
+	for i := range pb {
+		pb[i] = 0
+	}
+	w.r.Fault("caller_overwrites_accessor_outputs")
 	if !bytes.Equal(sg.priv.Bytes(), sg.dBytes) {
 		w.r.Violate("C09", "key-follows-caller-buffer", "NewPrivateKey", step, "after the caller overwrote the buffer it had passed to NewPrivateKey, key %d reads %x instead of %x", ki, sg.priv.Bytes(), sg.dBytes)
 	}
